@@ -14,7 +14,7 @@ EXPLANATION = (
     "accessor is reachable is dominated by features::init. R3: the value given to init derives from the parsed "
     "command line. Agreement of the sub-commands follows because they then compute the same function of the source "
     "under the same flag."
-    ' R1e also: the Err side of a stage result never reaches an Ok return of a Result-returning command. R2 also: a flag-reading closure is only handed to callees that run it on the initialising thread (core/alloc, std outside std::thread, hotwatch::blocking) unless it initialises the flag itself. R4: the text handed to the assembler is read from the path the command names (field, capture or parameter), not from a path computed elsewhere. R5: behind the test of the file extension against "asm" every success path passes all four stages - a source is never run from a stored object or unassembled.'
+    ' R1e also: the Err side of a stage result never reaches an Ok return of a Result-returning command. R2 also: a flag-reading closure is only handed to callees that run it on the initialising thread (core/alloc, std outside std::thread, hotwatch::blocking) unless it initialises the flag itself. R4: the text handed to the assembler is read from the path the command names (field, capture or parameter), not from a path computed elsewhere. R5: behind the test of the file extension against "asm" every success path passes all four stages - a source is never run from a stored object or unassembled. R6: every unit prepares the text it hands to the assembler the same way (the calls between read_to_string and StaticSource::new are the same set everywhere).'
 )
 NOT_DECIDED = "nothing of substance: the property is decided by R1-R3 (agreement = same stages, same flag)"
 
@@ -99,6 +99,31 @@ def run(ctx):
                               "sources that a sub-command running all four stages rejects"
                               % (name, ", ".join(sorted(s)), ", ".join(missing)))
     ctx.note("%d unit(s) analysed, %d reach the assembler" % (len(unit_fns), assembling))
+    ctx.finish_rule()
+
+    # ------------------------------------------------------------------ R1s: "Success" is only said behind the four stages
+    # a unit may finish without assembling (run of an object file), but where it *says* that the source has no errors, that sentence lies
+    # behind all four stages on every path - a remembered verdict of an earlier round, a cache, a shortcut do not count
+    ctx.rule("C07.R1s", "the success message is printed only behind all four validation stages", floor=2)
+    nsucc = 0
+    for name, fn, entry in unit_fns:
+        ins, transfer = sa.analyse(fn, start=entry)
+        for b, t, c in fn.calls():
+            if b not in ins or not (c and c.startswith("bin::") and c.rsplit("::", 1)[-1] in ("message", "file_message")):
+                continue
+            texts = [x for a in t["args"] for x in kit.operand_strs(prog, fn, a)]
+            if not any("uccess" in x for x in texts):
+                continue
+            nsucc += 1
+            ctx.instance(1)
+            sets_ = ins[b]
+            bad = [s_ for s_ in sets_ if s_ != ALL]
+            ctx.oblig(not bad, {"unit": name, "success message at": sp_file_line(t.get("sp")), "stage sets on the ways there": [sorted(s_) for s_ in sorted(sets_, key=sorted)]}, "all four stages")
+            if bad:
+                ctx.violation("success-without-stages|%s" % name, sp_file_line(t.get("sp")),
+                              "`%s` can print its success message after passing only {%s}: the verdict shown is not the result of assembling the text at hand "
+                              "(check, compile and run would reject what it calls error-free)" % (name, ", ".join(sorted(bad[0])) or "no stage"))
+    ctx.need(nsucc >= 2, "success messages in the assembling units (found %d)" % nsucc)
     ctx.finish_rule()
 
     # ------------------------------------------------------------------ R1e: results inspected
@@ -370,4 +395,50 @@ def run(ctx):
                               "`%s` can finish successfully for a `.asm` file after passing only {%s}: the source was not assembled (an object stored earlier "
                               "was used, or nothing ran), so run accepts a source that check and compile reject" % (short(n), ", ".join(sorted(bad[0])) or "no stage"))
     ctx.need(nasm >= 1, "test of the file extension against \"asm\" in the binary")
+    ctx.finish_rule()
+
+    # ------------------------------------------------------------------ R6
+    # every unit that assembles obtains the text the same way: what lies between reading the file and handing the text to the assembler
+    # (a helper that normalises it, strips a byte order mark, ...) is the same for check, compile, run and the watch re-check - otherwise
+    # one of them judges another text than the others
+    ctx.rule("C07.R6", "all assembling units prepare the source text the same way", floor=3)
+    PLAIN = re.compile(r"std::fs::read_to_string$|IntoDiagnostic<.*>>::into_diagnostic$|Try>::branch$|FromResidual<.*>>::from_residual$|clone::Clone>::clone$|"
+                       r"ops::deref::Deref>::deref$|convert::AsRef<.*>>::as_ref$|convert::Into<.*>>::into$|convert::From<.*>>::from$|clap|Parser::parse$|PathBuf::as_path$")
+    shapes6 = {}
+    for n, f in sorted(prog.fns.items()):
+        if f.bkind != "fn" or not n.startswith("bin::"):
+            continue
+        for b, t, c in f.calls():
+            if not (c and c.endswith("StaticSource::new")):
+                continue
+            ctx.instance(1)
+            e = f.expr(t["args"][0], 12)
+
+            def calls_behind(f_, e_, depth=0, seen=None):
+                """callee names in e_, looking through locals that are assigned on several paths (`match text.strip_prefix(..) { Some(r) => .., None => .. }`)"""
+                seen = seen if seen is not None else set()
+                out = set()
+                for x in expr_walk(e_):
+                    if x[0] == "call":
+                        out.add(str(x[1]))
+                    elif x[0] == "local" and depth < 3 and x[1] not in seen:
+                        seen.add(x[1])
+                        for kind_, db_, i_, node_ in f_.defs().get(x[1], []):
+                            if kind_ == "stmt":
+                                out |= calls_behind(f_, f_.rvalue_expr(node_["r"], 10), depth + 1, seen)
+                            else:
+                                out.add(str(callee_of(node_)))
+                                for a_ in node_["args"]:
+                                    out |= calls_behind(f_, f_.expr(a_, 10), depth + 1, seen)
+                return out
+            extra = sorted({short(c_) for c_ in calls_behind(f, e) if not PLAIN.search(c_)})
+            shapes6.setdefault(tuple(extra), []).append((short(n), sp_file_line(t.get("sp"))))
+    ok = len(shapes6) <= 1
+    ctx.oblig(ok, {"text preparation": {(", ".join(k) or "read_to_string only"): [w[0] for w in v] for k, v in shapes6.items()}}, "one shape for every unit")
+    if not ok:
+        minority = min(shapes6.items(), key=lambda kv: len(kv[1]))
+        ctx.violation("source-preparation", minority[1][0][1],
+                      "the units do not prepare the source text the same way: %s - a file one of them accepts after its own preparation is judged raw by the other(s)"
+                      % "; ".join("%s: %s" % ([w[0] for w in v], ", ".join(k) or "the text as read") for k, v in sorted(shapes6.items())))
+    ctx.need(sum(len(v) for v in shapes6.values()) >= 3, "StaticSource::new sites in the binary")
     ctx.finish_rule()
